@@ -83,6 +83,9 @@ func GenSProgram(t *rapid.T, cfg SGenCfg) SProgram {
 	if rapid.IntRange(0, 2).Draw(t, "fullinit") > 0 {
 		p.Init = rf
 	}
+	if cfg.W["boot"] > 0 || cfg.W["loneboot"] > 0 {
+		p.RegAll = rapid.Bool().Draw(t, "regall")
+	}
 	nops := rapid.IntRange(cfg.MinOps, cfg.MaxOps).Draw(t, "nops")
 	slowLeft := cfg.MaxSlow
 	total := int64(blocks) * 8
@@ -129,6 +132,8 @@ func GenSProgram(t *rapid.T, cfg SGenCfg) SProgram {
 				o := SOp{K: "promote", Node: n, N: int64(rapid.IntRange(0, 2).Draw(t, "windowwrites")), Seed: rapid.IntRange(1, 5000).Draw(t, "wseed"), Reps: rapid.IntRange(0, 1).Draw(t, "waligned")}
 				if cfg.W["write"] == 0 {
 					o.N = 0
+				} else if rapid.IntRange(0, 3).Draw(t, "verifyrace") == 0 {
+					o.N, o.Str = 0, "verifyrace"
 				}
 				if cfg.RestFail && rapid.IntRange(0, 4).Draw(t, "cpfail") == 0 {
 					o.Fail = []int{rapid.IntRange(0, nodes-1).Draw(t, "cpfailnode")}
@@ -152,6 +157,21 @@ func GenSProgram(t *rapid.T, cfg SGenCfg) SProgram {
 				o.Str = "tcp://127.99.99.99:9502"
 			}
 			p.Ops = append(p.Ops, o)
+		case "loneboot":
+			// one replica leaves, the volume goes on (a write the leaver misses), then
+			// every other replica is lost as well; the first one comes back alone and
+			// registers: a single registration is no majority (RF >= 2) and whatever
+			// it holds must not be served
+			a := rapid.IntRange(0, nodes-1).Draw(t, "node")
+			p.Ops = append(p.Ops, SOp{K: "nodedrop", Node: a})
+			off := rapid.Int64Range(0, total-1).Draw(t, "off")
+			p.Ops = append(p.Ops, SOp{K: "write", Off: off, Len: rapid.Int64Range(1, min64(total-off, 24)).Draw(t, "len"), Seed: rapid.IntRange(1, 250).Draw(t, "seed")})
+			for _, b := range rapid.Permutation(seqInts(nodes)).Draw(t, "others") {
+				if b != a {
+					p.Ops = append(p.Ops, SOp{K: "nodedrop", Node: b})
+				}
+			}
+			p.Ops = append(p.Ops, SOp{K: "reconnect", Node: a}, SOp{K: "boot", Node: a}, SOp{K: "read", Off: off, Len: 1, Reps: 2})
 		case "pingfail", "nodedrop", "reconnect", "boot":
 			p.Ops = append(p.Ops, SOp{K: k, Node: rapid.IntRange(0, nodes-1).Draw(t, "node")})
 		case "snapshot":
